@@ -30,6 +30,25 @@ type fakeWS struct {
 	conn     *websocket.Conn
 	calls    []string // "subscribe <query>" / "unsubscribe <query>" in arrival order
 	callCond *sync.Cond
+	clients  []*cmtjrpcclient.WSClient
+	down     bool
+}
+
+// shutdown stops the clients and the endpoint of a world that is no longer used (a driver runs hundreds of histories in
+// one process: what a finished world leaves behind must not pile up in the goroutine dumps of the quiescence check).
+func (f *fakeWS) shutdown() {
+	f.mu.Lock()
+	if f.down {
+		f.mu.Unlock()
+		return
+	}
+	f.down = true
+	cls := f.clients
+	f.mu.Unlock()
+	for _, c := range cls {
+		_ = c.Stop()
+	}
+	_ = f.srv.Close()
 }
 
 func newFakeWS(t *testing.T) *fakeWS {
@@ -67,7 +86,7 @@ func newFakeWS(t *testing.T) *fakeWS {
 	})
 	f.srv = &http.Server{Handler: mux}
 	go func() { _ = f.srv.Serve(ln) }()
-	t.Cleanup(func() { _ = f.srv.Close() })
+	t.Cleanup(f.shutdown)
 	return f
 }
 
@@ -82,8 +101,8 @@ func (f *fakeWS) client() *cmtjrpcclient.WSClient {
 	for f.conn == nil {
 		f.callCond.Wait()
 	}
+	f.clients = append(f.clients, c)
 	f.mu.Unlock()
-	f.t.Cleanup(func() { _ = c.Stop() })
 	return c
 }
 
